@@ -65,7 +65,7 @@ def run_stream(ctx, prop):
                "A,R", ["--lww", "--variants", "5" if t == "quick" else "10"])
     else:
         cfgs = [("Gen_Store_graph2.cfg", {})]
-        for sh in ("diamond", "chain", "mirror", "delbottom", "deltop"):
+        for sh in ("diamond", "chain", "mirror", "delbottom", "deltop", "moved"):
             cfgs.append(("Gen_Store_shape_%s%s.cfg" % (sh, "1" if t == "quick" else "2"), {}))
         n_sim = 150 if t == "quick" else 3000
         cfgs.append(("Gen_Store_graph_sim.cfg", {"simulate": n_sim, "limit": n_sim, "seed": ctx.seed}))
